@@ -49,9 +49,10 @@ def gen_cc(rng):
     n = rng.choice([2, 3, 4, 6, 9, 14])
     T = [float(rng.randrange(30, 45) * 10)]
     H = [float(rng.choice([0, 0, 500, 7000]))]
-    shape = rng.choice(["generic", "flat_ends", "collinear", "drift", "tiny_extent", "allflat"])
+    shape = rng.choice(["generic", "flat_ends", "collinear", "drift", "tiny_extent", "allflat", "t_plateau", "t_plateau"])
     for i in range(n - 1):
-        T.append(T[-1] - rng.choice([10.0, 20.0, 5.0]))
+        # isothermal parts (latent loads) are plateaus in T over H
+        T.append(T[-1] - (rng.choice([10.0, 0.0, 0.0, 5.0]) if shape == "t_plateau" else rng.choice([10.0, 20.0, 5.0])))
         if shape == "allflat":
             dh = 0.0
         elif shape == "tiny_extent":
@@ -60,6 +61,8 @@ def gen_cc(rng):
             dh = 10.0 * (T[-2] - T[-1])
         elif shape == "drift":
             dh = 10.0 * (T[-2] - T[-1]) + rng.choice([4e-7, 6e-7, 9e-7]) * (i + 1)
+        elif shape == "t_plateau":
+            dh = float(rng.choice([0, 100, 250, 1000]))
         else:
             dh = float(rng.choice([0, 0, 100, 250, 1000]))
         H.append(H[-1] + dh)
